@@ -517,28 +517,15 @@ func c05RestartExistingInCleanup(x *mc.Cell) {
 // ---- local role checks
 
 func c05LocalRoles(x *mc.Cell) {
-	v := doubles.Voucher("T", "v")
-	for _, pull := range []bool{false, true} {
-		for _, created := range []bool{false, true} {
+	for r := CreatedPush; r <= ReceivedPull; r++ {
+		for si, state := range StatesFor(r) {
 			for _, call := range []string{"SendVoucher", "SendVoucherResult", "UpdateValidationStatus"} {
-				pull, created, call := pull, created, call
-				rep := map[string]any{"pull": pull, "created": created, "call": call}
+				r, si, state, call := r, si, state, call
+				created, pull := r.Created(), r.Pull()
+				rep := map[string]any{"role": RoleNames[r], "state": state, "call": call}
 				run(x, "C05", Opts{Types: []string{"T"}}, rep, func(n *Node) {
-					var chid datatransfer.ChannelID
-					if created {
-						var err error
-						if pull {
-							chid, err = n.Mgr.OpenPullDataChannel(context.Background(), doubles.PeerB, v, doubles.Cid("root"), doubles.AllSelector())
-						} else {
-							chid, err = n.Mgr.OpenPushDataChannel(context.Background(), doubles.PeerB, v, doubles.Cid("root"), doubles.AllSelector())
-						}
-						if err != nil {
-							panic(err)
-						}
-						mc.Wait()
-					} else {
-						chid = mkReceived(n, pull, 7, datatransfer.ValidationResult{Accepted: true})
-					}
+					// every state the driver can reach, terminal ones included: the role rule does not depend on the status
+					chid := Setup(n, r, state)
 					before := digestOf(n, chid)
 					mk := n.Mark()
 					var err error
@@ -554,19 +541,20 @@ func c05LocalRoles(x *mc.Cell) {
 					d := n.Since(mk)
 					x.Premise++
 					allowed := (call == "SendVoucher") == created
-					x.Outcome(fmt.Sprintf("%s|%v|%v|%v", call, created, pull, err != nil))
-					ctx := fmt.Sprintf("call=%s created=%v pull=%v err=%v\n  %s", call, created, pull, err, d)
+					x.Outcome(fmt.Sprintf("%s|%s|%s|%v", call, RoleNames[r], state, err != nil))
+					ctx := fmt.Sprintf("call=%s role=%s state=%s pull=%v err=%v\n  %s", call, RoleNames[r], state, pull, err, d)
 					if allowed {
-						if err != nil {
+						// (whether an allowed call succeeds in a later status is C19 / C02 / C04 business)
+						if err != nil && si == 0 {
 							x.Violate("C05", fmt.Sprintf("local-role;allowed-call-failed;call=%s;created=%v", call, created), ctx, rep)
 						}
 						return
 					}
 					if err == nil {
-						x.Violate("C05", fmt.Sprintf("local-role;wrong-role-accepted;call=%s;created=%v", call, created), ctx, rep)
+						x.Violate("C05", fmt.Sprintf("local-role;wrong-role-accepted;call=%s;created=%v;state=%s", call, created, state), ctx, rep)
 					}
 					if len(d.Sends) != 0 || len(d.Events) != 0 || len(d.TCalls) != 0 || digestOf(n, chid) != before {
-						x.Violate("C05", fmt.Sprintf("local-role;wrong-role-had-effects;call=%s;created=%v", call, created), ctx, rep)
+						x.Violate("C05", fmt.Sprintf("local-role;wrong-role-had-effects;call=%s;created=%v;state=%s", call, created, state), ctx, rep)
 					}
 				})
 			}
